@@ -70,6 +70,37 @@ WHAT = {
     "C20-1": "process_trace.py: one pickle per chain in one stream; reader loops until EOFError (truncation = fewer chains, accepted)",
     "C20-2": "process_trace.py: one gzip member per chain, reader loops `while fh.peek(1)`",
     "C20-3": "process_trace.py: flushed per-chain records; reader inflates with `decompressobj` and ignores the missing trailer",
+    # ---- second round (different functions, subtler mechanisms)
+    "C01-4": "smc/utils.py `RootPermutationDistribution.sample`: `rng.shuffle(outliers)` removed before the outlier interleave",
+    "C01-5": "tree.py `get_subtree_data_len`: loops over children instead of descendants (permutation density wrong for deep trees)",
+    "C01-6": "run.py `setup_kernel`: kernel built with a fresh TreeJointDistribution instead of the chain's shared one (stale alpha after a concentration update)",
+    "C03-4": "distributions.py `_compute_r_term`: sign of the root-count normaliser flipped in a tidy-up",
+    "C03-5": "distributions.py `outlier_prior`: `outlier_prob != 0` guard hoisted from the data point to the node's first point (order-dependent value)",
+    "C03-6": "tree.py `Tree.__eq__`: cheap rejection on the number of outliers, then clades only (`==` and `hash` disagree)",
+    "C04-4": "gibbs_mh.py `DataPointSampler.sample_tree`: skip guard lost `old_node == outlier or` (a lone outlier is never reassigned)",
+    "C04-5": "distributions.py `log_p_one`: outlier terms grouped under `if len(tree.outliers) > 0` (outlier prior of the clone points skipped; fused form unchanged)",
+    "C04-6": "tree.py `add_subtree`: `if parent is None` -> `if not parent` (clone 0 is falsy: regraft below clone 0 goes to the root)",
+    "C06-4": "tree.py `get_subtree`: per-node `TreeNode.copy()` dropped (extracted tree shares payloads with its source)",
+    "C06-5": "tree.py `_internal_add_data_point_to_node`: refresh wrapped in `if parent:` (skipped when the parent is clone 0)",
+    "C06-6": "tree.py `_update_path_to_root`: `all_simple_paths` replaced by `ancestors` refreshed in ascending index order",
+    "C07-4": "gibbs_mh.py `_get_subtree_and_pruned_tree`: `pruned_tree = tree` (input pruned in place; early return hands back a tree without clones)",
+    "C07-5": "visitors.py `PreOrderNodeRelabeller.discover_vertex`: `node_indices_rev[v] = old_node_id`",
+    "C07-6": "bootstrap.py `sample`: `parent_particle is None` -> `self._empty_tree()` (outliers-only parent treated as no parent)",
+    "C08-4": "fully_adapted.py `_init_dist`: `log_q` computed before the outlier tree is appended (zip drops the outlier placement)",
+    "C08-5": "semi_adapted.py `log_p`: guard re-ordered to `node not in parent.tree_nodes` (outlier placement scored as a new clone)",
+    "C08-6": "bootstrap.py `sample`: first-particle and outliers-only branches merged under `_empty_tree()` (fresh tree drops the parent's outliers)",
+    "C12-4": "process_trace/utils.py `convert_rustworkx_to_networkx`: `add_nodes_from` removed (all-outlier tree has no 'root')",
+    "C12-5": "map.py `compute_max_likelihood`: `sorted(graph.successors(...))`",
+    "C12-6": "process_trace.py `get_clone_table`: `df_list.append(group)` moved under `if clone_id in ccfs` (outlier rows dropped)",
+    "C15-4": "distributions.py `FSCRPDistribution`: `log_alpha` computed in `__init__` only (entry records new alpha next to log_p_one under the old one)",
+    "C15-5": "run.py `run_phyclone_chain`: result of `_run_burnin` discarded (first entry is the start tree)",
+    "C15-6": "run.py `run`: `pool.submit(...)` passes `print_freq` in the `thin` position",
+    "C17-4": "pyclone.py `load_pyclone_data`: samples taken in order of first appearance after sorting by (mutation, sample)",
+    "C17-5": "pyclone.py `_remove_duplicated_and_partially_absent_mutations`: early return when `len(df) == n_samples * n_mutations`",
+    "C17-6": "pyclone.py `_process_required_cols_on_df`: default blocks indented under the `else` of the `len(samples) > 10` print branch",
+    "C19-4": "tree.py `to_dict`: `.copy()` dropped on the two index maps (recorded entries share the live tree's maps)",
+    "C19-5": "smc/samplers/base.py `sample`: first-resample guard `<` -> `<=`",
+    "C19-6": "distributions.py `outlier_prior`: guard tests `outlier_prob_not != 0` (log(0) at --outlier-prob 1.0)",
 }
 
 # what the check did the first time it met the change (before any strengthening), recorded at import
@@ -95,6 +126,16 @@ FIRST = {
     "C20-1": "analysis-error (reader shape) -> P0 pre-pass: a reader that treats EOF as end of data is a violation",
     "C20-2": "analysis-error -> P0",
     "C20-3": "analysis-error -> P0",
+    "C04-5": "missed (C03.T2 fired) -> C04 imports the density rules C03.T1-T3",
+    "C04-6": "missed (TS fired in C02/C03/C06/C07) -> C04 imports TS for the tree editor",
+    "C08-5": "missed -> the adapted outcome is accounted as two cells (existing clone / outlier set)",
+    "C08-6": "analysis-error (disjunctive state guard) -> disjunctions are expanded into states; new rule A2 (empty tree only without a parent)",
+    "C12-6": "missed -> N3 compares the returned table with the specification's (every group returned)",
+    "C15-4": "missed (C03.T1 / C13.U3 fired) -> C15 imports C13.U3 and the density rules",
+    "C17-5": "analysis-error (conditional filter) -> a documented filter guarded by a size test is an L1 violation",
+    "C17-6": "analysis-error -> documented defaults guarded by a size test are an L3 violation",
+    "C19-4": "missed (C06.M4 / C15.D3 fired) -> C19 imports C06.M4 (recorded form shares nothing with the live tree)",
+    "C19-6": "missed (C03.T2 fired) -> C19 imports the density rules",
 }
 
 
